@@ -970,7 +970,12 @@ func (s *Session) Encode(ctx context.Context, v interface{}) error {
 	}
 
 	defer setWriteDeadline(ctx, s.conn)()
-	return marshal.EncodeXML(s.out.e, v)
+	tw := &openTracker{w: s.out.e}
+	err := marshal.EncodeXML(tw, v)
+	if err != nil {
+		tw.closeOpen()
+	}
+	return err
 }
 
 // EncodeElement writes the XML encoding of v to the stream, using start as the
@@ -985,7 +990,12 @@ func (s *Session) EncodeElement(ctx context.Context, v interface{}, start xml.St
 	}
 
 	defer setWriteDeadline(ctx, s.conn)()
-	return marshal.EncodeXMLElement(s.out.e, v, start)
+	tw := &openTracker{w: s.out.e}
+	err := marshal.EncodeXMLElement(tw, v, start)
+	if err != nil {
+		tw.closeOpen()
+	}
+	return err
 }
 
 // Send transmits the first element read from the provided token reader.
@@ -1036,10 +1046,7 @@ func send(ctx context.Context, s *Session, r xml.TokenReader, start *xml.StartEl
 		// The payload failed part of the way through. What has been written
 		// cannot be taken back, but left open it would swallow every element sent
 		// after it: close what this call opened.
-		for i := len(tw.open) - 1; i >= 0; i-- {
-			/* #nosec */
-			s.out.e.EncodeToken(xml.EndElement{Name: tw.open[i]})
-		}
+		tw.closeOpen()
 		/* #nosec */
 		s.out.e.EncodeToken(start.End())
 		/* #nosec */
@@ -1058,6 +1065,25 @@ func send(ctx context.Context, s *Session, r xml.TokenReader, start *xml.StartEl
 type openTracker struct {
 	w    xmlstream.TokenWriter
 	open []xml.Name
+}
+
+// closeOpen writes the end tags of the elements that are still open.
+func (t *openTracker) closeOpen() {
+	for i := len(t.open) - 1; i >= 0; i-- {
+		/* #nosec */
+		t.w.EncodeToken(xml.EndElement{Name: t.open[i]})
+	}
+	t.open = t.open[:0]
+	/* #nosec */
+	t.Flush()
+}
+
+// Flush flushes the underlying writer if it can be flushed.
+func (t *openTracker) Flush() error {
+	if f, ok := t.w.(xmlstream.Flusher); ok {
+		return f.Flush()
+	}
+	return nil
 }
 
 func (t *openTracker) EncodeToken(tok xml.Token) error {
